@@ -384,7 +384,17 @@ func Classify(err error) string {
 
 // Do performs the request on the real witness.
 func (e *Env) Do(r Req) Outcome {
-	b, err := e.W.Update(context.Background(), r.LogID, r.Old, r.CP, r.Proof)
+	// The code under test gets its own copy of the request bytes: generated
+	// checkpoints are cached and shared between requests and goroutines.
+	cp := append([]byte(nil), r.CP...)
+	var proof [][]byte
+	if r.Proof != nil {
+		proof = make([][]byte, len(r.Proof))
+		for i, h := range r.Proof {
+			proof[i] = append([]byte(nil), h...)
+		}
+	}
+	b, err := e.W.Update(context.Background(), r.LogID, r.Old, cp, proof)
 	return Outcome{Bytes: b, Err: err, Class: Classify(err)}
 }
 
